@@ -14,6 +14,8 @@ Operations (python tuples, JSON-able):
   ('find',    holder, rr, n)   nodelist.find_slots(RankRequirements(..), n_slots=n)
   ('alloc',   holder, sup)     nodelist.nodes[sup.at].allocate_slot(Slot(..))   (_check=True)
   ('release', holder)          nodelist.release_slots(<all slots of the holder>)
+(ConcRig below runs the same operations in several logical threads sharing one
+NodeList, under the baton controller of harness/sched_ctl.py.)
 rr  = dict(nc, co, ng, go, lfs, mem)      co / go in share units (su == whole)
 sup = dict(at, node, name, cores=[[index, units], ..], gpus=[[..]], lfs, mem)
       name: 'ok' (the name of node `node`) or any other string
@@ -24,6 +26,7 @@ import copy
 from unittest import mock
 
 from .. import rpshim
+from .. import sched_ctl
 
 rp = rpshim.load()
 
@@ -252,3 +255,151 @@ class NodeAllocRig(object):
 
     def trace(self):
         return {'uids': list(self.holders) or ['none'], 'events': self.events}
+
+
+# ------------------------------------------------------------------------------
+# concurrent use: application threads sharing one NodeList
+#
+class CNode(Node):
+    '''the real Node with schedule points and event logging around its real methods;
+       nothing of the placement logic lives here'''
+
+    def find_slot(self, rr):
+        rig = self.__rig__
+        rig.searched[rig.ctl.current()] = True
+        slot = Node.find_slot(self, rr)
+        if slot:
+            # logged before the next schedule point: atomic with the record
+            rig.on_take(slot)
+        return slot
+
+    def allocate_slot(self, slot, _check=True):
+        if not _check:
+            # Node.find_slot has searched and is about to record what it found
+            self.__rig__.ctl.point('record')
+        return Node.allocate_slot(self, slot, _check)
+
+    def deallocate_slot(self, slot):
+        rig = self.__rig__
+        try:
+            Node.deallocate_slot(self, slot)
+        except Exception as e:                            # noqa
+            rig.on_give(slot, 'raise', type(e).__name__)
+            raise
+        rig.on_give(slot, 'ok', 'none')
+
+
+class ConcRig(NodeAllocRig):
+    '''
+    programs: {thread name: [operation, ...]}, operations as for NodeAllocRig.  The threads
+    are logical threads of a baton controller (sched_ctl): exactly one runs at a time
+    and is switched only at schedule points -
+      * every acquisition of a node lock (Node.__lock__ is replaced by an instrumented
+        re-entrant lock: a thread waiting for a held lock cannot be chosen),
+      * between search and record inside Node.find_slot ('record'),
+      * between two operations of a thread ('op').
+    Events are logged at the node level (one per slot taken / given back, CTake / CGive)
+    and at the return of every call (CFind / CRelease / Alloc), each with the thread.
+    '''
+
+    def __init__(self, lay, programs, chooser, max_steps=2000):
+        self.lay = lay
+        self.ctl = sched_ctl.Controller(chooser, max_steps=max_steps)
+        nodes = [CNode(copy.deepcopy(d)) for d in lay.node_dicts()]
+        for node in nodes:
+            node.__rig__  = self
+            node.__lock__ = sched_ctl.CLock(self.ctl, 'n%d' % node.index, reentrant=True)
+        self.nl = NodeList(nodes=nodes)
+        assert all(type(n) is CNode for n in self.nl.nodes)
+        if lay.verify:
+            self.nl.verify()
+        self.slots    = {}
+        self.events   = []
+        self.holders  = []
+        self.exact    = True
+        self.cur      = {}         # thread -> holder of the call it is in
+        self.searched = {}
+        self.programs = {t: [tuple(op) for op in ops] for t, ops in programs.items()}
+        self.deadlock = None
+
+    def log(self, ev, **kw):
+        kw['t'] = self.ctl.current() or 'none'
+        return NodeAllocRig.log(self, ev, **kw)
+
+    def on_take(self, slot):
+        t = self.ctl.current()
+        self.log('CTake', h=self.cur[t], slot=self.proj_slots([slot])[0])
+
+    def on_give(self, slot, res, exc):
+        t = self.ctl.current()
+        self.log('CGive', h=self.cur[t], slot=self.proj_slots([slot])[0], res=res, exc=exc)
+
+    # the calls of one thread
+    def find(self, h, r, n):
+        t = self.ctl.current()
+        self._holder(h)
+        self.cur[t], self.searched[t] = h, False
+        su  = float(self.lay.su)
+        req = RankRequirements(n_cores=r['nc'], core_occupation=r['co'] / su,
+                               n_gpus=r['ng'],  gpu_occupation=r['go'] / su,
+                               lfs=r['lfs'], mem=r['mem'])
+        res, exc, slots = 'none', 'none', None
+        try:
+            slots = self.nl.find_slots(req, n_slots=n)
+        except sched_ctl.Abort:
+            raise
+        except Exception as e:                            # noqa
+            res, exc = 'raise', type(e).__name__
+        if slots:
+            res = 'grant'
+            self.slots[h] = list(slots)
+        return self.log('CFind', h=h, rr=dict(r), n=n, res=res, exc=exc,
+                        searched=bool(self.searched[t]), slots=self.proj_slots(slots))
+
+    def release(self, h):
+        t = self.ctl.current()
+        slots = self.slots.pop(h, None)
+        if not slots:
+            return None
+        self.cur[t] = h
+        res, exc = 'ok', 'none'
+        try:
+            self.nl.release_slots(slots)
+        except sched_ctl.Abort:
+            raise
+        except Exception as e:                            # noqa
+            res, exc = 'raise', type(e).__name__
+        return self.log('CRelease', h=h, res=res, exc=exc)
+
+    def alloc(self, h, s):
+        self.cur[self.ctl.current()] = h
+        return NodeAllocRig.alloc(self, h, s)
+
+    def _thread(self, name):
+        def body():
+            for k, op in enumerate(self.programs[name]):
+                if k:
+                    self.ctl.point('op')
+                self.step(op)
+        return body
+
+    def run(self):
+        for name in sorted(self.programs):
+            self.ctl.spawn(name, self._thread(name))
+        try:
+            self.ctl.run()
+        except sched_ctl.Deadlock as e:
+            self.deadlock = str(e)
+            self.ctl.abort()
+        tr = self.trace()
+        tr['schedule'] = [ch for _, ch in self.ctl.choices]
+        return tr
+
+
+def explore(lay, programs, preempt_bound=None, max_runs=100000):
+    '''all schedules (or all with at most preempt_bound preemptions) of the programs'''
+    def make_run(chooser):
+        rig = ConcRig(lay, programs, chooser)
+        tr  = rig.run()
+        return rig.ctl, (tr, rig.deadlock)
+    return sched_ctl.explore(make_run, max_runs=max_runs, preempt_bound=preempt_bound)
